@@ -119,7 +119,8 @@ Lemma op_checksig_schnorr_indep t sp idx m1 m2 s :
 Proof.
   unfold op_checksig_schnorr. destruct s as [|pk [|sg r]]; try reflexivity.
   cbn [so_xonly_ok so_schnorr tx_sigops]. destruct (negb (xonly_ok pk)); [reflexivity|].
-  destruct sg; [reflexivity|]. destruct (schnorr_split _) as [sg' ht].
+  destruct sg as [|x0 sg]; [reflexivity|]. destruct (negb (schnorr_form_ok (x0 :: sg))); [reflexivity|].
+  destruct (schnorr_split _) as [sg' ht].
   now rewrite !tx_schnorr_fresh.
 Qed.
 
@@ -128,7 +129,8 @@ Lemma op_checksigadd_schnorr_indep t sp idx m1 m2 s :
 Proof.
   unfold op_checksigadd_schnorr. destruct s as [|pk [|en [|sg r]]]; try reflexivity.
   cbn [so_xonly_ok so_schnorr tx_sigops]. destruct (negb (xonly_ok pk)); [reflexivity|].
-  destruct sg; [reflexivity|]. destruct (schnorr_split _) as [sg' ht].
+  destruct sg as [|x0 sg]; [reflexivity|]. destruct (negb (schnorr_form_ok (x0 :: sg))); [reflexivity|].
+  destruct (schnorr_split _) as [sg' ht].
   now rewrite !tx_schnorr_fresh.
 Qed.
 
@@ -219,16 +221,42 @@ Qed.
 (* for every signature BIP341 declares well-formed (64 bytes, or 65 bytes with a non-zero last
    byte) the library splits it as the BIP does *)
 Lemma schnorr_split_bip341 sg s64 ht :
-  taproot_sig_hash_type sg = Some (s64, ht) -> schnorr_split sg = (s64, ht) /\ sg <> [].
+  taproot_sig_hash_type sg = Some (s64, ht) ->
+  schnorr_split sg = (s64, ht) /\ sg <> [] /\ schnorr_form_ok sg = true.
 Proof.
-  unfold taproot_sig_hash_type, schnorr_split.
+  unfold taproot_sig_hash_type, schnorr_split, schnorr_form_ok.
   destruct (length sg =? 64)%nat eqn:E64.
   - intros [= <- <-]. apply Nat.eqb_eq in E64.
     destruct (length sg =? 65)%nat eqn:E65; [apply Nat.eqb_eq in E65; lia|].
-    split; [reflexivity|]. destruct sg; [discriminate|discriminate].
+    split; [reflexivity|]. split; [destruct sg; discriminate|reflexivity].
   - destruct (length sg =? 65)%nat eqn:E65; [|discriminate].
-    destruct (last sg 0 =? 0); [discriminate|]. intros [= <- <-].
-    split; [reflexivity|]. apply Nat.eqb_eq in E65. destruct sg; [discriminate|discriminate].
+    change (taproot_explicit_hash_type (last sg 0)) with (schnorr_ht_defined (last sg 0)).
+    destruct (schnorr_ht_defined (last sg 0)); [|discriminate]. intros [= <- <-].
+    split; [reflexivity|]. split; [|reflexivity]. apply Nat.eqb_eq in E65. destruct sg; discriminate.
+Qed.
+
+(* the form test of the op codes IS BIP341's rule *)
+Lemma schnorr_form_ok_bip341 sg :
+  schnorr_form_ok sg = match taproot_sig_hash_type sg with Some _ => true | None => false end.
+Proof.
+  unfold taproot_sig_hash_type, schnorr_form_ok.
+  destruct (length sg =? 64)%nat; [reflexivity|]. cbn [orb].
+  destruct (length sg =? 65)%nat; [|reflexivity]. cbn [andb].
+  change (taproot_explicit_hash_type (last sg 0)) with (schnorr_ht_defined (last sg 0)).
+  destruct (schnorr_ht_defined (last sg 0)); reflexivity.
+Qed.
+
+(* a non-empty signature that BIP341 declares ill-formed makes both op codes fail, whatever the
+   verdict record: 65 bytes ending in 00 or in an undefined hash type, any length other than 64 / 65 *)
+Lemma op_schnorr_bad_form so pk sg r :
+  sg <> [] -> taproot_sig_hash_type sg = None ->
+  op_checksig_schnorr so (pk :: sg :: r) = Err /\
+  forall en, op_checksigadd_schnorr so (pk :: en :: sg :: r) = Err.
+Proof.
+  intros Hne Hty. assert (Hf : schnorr_form_ok sg = false) by (rewrite schnorr_form_ok_bip341, Hty; reflexivity).
+  unfold op_checksig_schnorr, op_checksigadd_schnorr.
+  destruct (negb (so_xonly_ok so pk)); [split; reflexivity|].
+  destruct sg as [|x sg]; [congruence|]. rewrite Hf. split; reflexivity.
 Qed.
 
 Lemma op_checksig_schnorr_own_digest t sp idx m pk sg s64 ht r :
@@ -236,9 +264,9 @@ Lemma op_checksig_schnorr_own_digest t sp idx m pk sg s64 ht r :
   op_checksig_schnorr (SIGOPS t sp idx m) (pk :: sg :: r) =
   (d <- fresh_digest t sp idx ht ;; b <- pr_schnorr pr pk s64 d ;; Ok (enc_bool b :: r)).
 Proof.
-  intros Hpk Hsg. destruct (schnorr_split_bip341 sg s64 ht Hsg) as [Hsplit Hne].
+  intros Hpk Hsg. destruct (schnorr_split_bip341 sg s64 ht Hsg) as (Hsplit & Hne & Hf).
   unfold op_checksig_schnorr. cbn [so_xonly_ok so_schnorr tx_sigops]. rewrite Hpk. cbn [negb].
-  destruct sg as [|x sg]; [congruence|]. rewrite Hsplit, tx_schnorr_fresh.
+  destruct sg as [|x sg]; [congruence|]. rewrite Hf. cbn [negb]. rewrite Hsplit, tx_schnorr_fresh.
   destruct (fresh_digest t sp idx ht); reflexivity.
 Qed.
 
@@ -248,9 +276,9 @@ Lemma op_checksigadd_schnorr_own_digest t sp idx m pk en sg s64 ht r :
   (d <- fresh_digest t sp idx ht ;; b <- pr_schnorr pr pk s64 d ;;
    Ok (encode_num (if b then decode_num en + 1 else decode_num en) :: r)).
 Proof.
-  intros Hpk Hsg. destruct (schnorr_split_bip341 sg s64 ht Hsg) as [Hsplit Hne].
+  intros Hpk Hsg. destruct (schnorr_split_bip341 sg s64 ht Hsg) as (Hsplit & Hne & Hf).
   unfold op_checksigadd_schnorr. cbn [so_xonly_ok so_schnorr tx_sigops]. rewrite Hpk. cbn [negb].
-  destruct sg as [|x sg]; [congruence|]. rewrite Hsplit, tx_schnorr_fresh.
+  destruct sg as [|x sg]; [congruence|]. rewrite Hf. cbn [negb]. rewrite Hsplit, tx_schnorr_fresh.
   destruct (fresh_digest t sp idx ht); reflexivity.
 Qed.
 
@@ -276,74 +304,53 @@ Qed.
 
 End S.
 
-(* ---------------- where the library leaves BIP341's signature rule (refutations) -------------- *)
+(* ---------------- BIP341's signature rule at the op codes (after fix 746b81a) ---------------- *)
 
-(* a 65-byte signature whose hash-type byte is 0x00 is invalid by BIP341; the op code (for ANY
-   verdict record) treats it exactly like the 64-byte signature it extends: SIGHASH_DEFAULT digest *)
-Lemma schnorr_explicit_default so pk s64 r :
+(* a 65-byte signature whose hash-type byte is 0x00: invalid by BIP341, rejected *)
+Lemma schnorr_explicit_default_rejected so pk s64 r :
   length s64 = 64%nat ->
   taproot_sig_hash_type (s64 ++ [0]) = None /\
   taproot_sig_hash_type s64 = Some (s64, 0) /\
-  op_checksig_schnorr so (pk :: (s64 ++ [0]) :: r) = op_checksig_schnorr so (pk :: s64 :: r) /\
-  forall en, op_checksigadd_schnorr so (pk :: en :: (s64 ++ [0]) :: r) =
-             op_checksigadd_schnorr so (pk :: en :: s64 :: r).
+  op_checksig_schnorr so (pk :: (s64 ++ [0]) :: r) = Err /\
+  forall en, op_checksigadd_schnorr so (pk :: en :: (s64 ++ [0]) :: r) = Err.
 Proof.
   intros H.
   assert (H65 : length (s64 ++ [0]) = 65%nat) by (rewrite app_length, H; reflexivity).
-  assert (S1 : schnorr_split (s64 ++ [0]) = (s64, 0)).
-  { unfold schnorr_split. rewrite H65. cbn [Nat.eqb]. now rewrite removelast_app_one, last_app_one. }
-  assert (S2 : schnorr_split s64 = (s64, 0)).
-  { unfold schnorr_split. rewrite H. reflexivity. }
-  split; [|split; [|split]].
-  - unfold taproot_sig_hash_type. rewrite H65. cbn [Nat.eqb]. now rewrite last_app_one.
-  - unfold taproot_sig_hash_type. rewrite H. reflexivity.
-  - unfold op_checksig_schnorr. destruct (negb (so_xonly_ok so pk)); [reflexivity|].
-    destruct s64 as [|x s]; [discriminate|]. cbn [app]. change (x :: s ++ [0]) with ((x :: s) ++ [0]).
-    now rewrite S1, S2.
-  - intros en. unfold op_checksigadd_schnorr. destruct (negb (so_xonly_ok so pk)); [reflexivity|].
-    destruct s64 as [|x s]; [discriminate|]. cbn [app]. change (x :: s ++ [0]) with ((x :: s) ++ [0]).
-    now rewrite S1, S2.
+  assert (T1 : taproot_sig_hash_type (s64 ++ [0]) = None).
+  { unfold taproot_sig_hash_type. rewrite H65. cbn [Nat.eqb]. now rewrite last_app_one. }
+  split; [exact T1|]. split; [unfold taproot_sig_hash_type; rewrite H; reflexivity|].
+  exact (op_schnorr_bad_form so pk (s64 ++ [0]) r (app_one_not_nil _ _) T1).
 Qed.
 
-(* a signature of any other length (here: longer than 65 bytes) is invalid by BIP341; the library
-   reads hash type SIGHASH_DEFAULT and SchnorrSignature.parse looks at the first 64 bytes only *)
-Lemma pecc_schnorr_ignores_tail C sha256 pk s64 extra d :
-  length s64 = 64%nat ->
-  pecc_schnorr C sha256 pk (s64 ++ extra) d = pecc_schnorr C sha256 pk s64 d.
-Proof.
-  intros H. unfold pecc_schnorr, schnorr_parse.
-  assert (F1 : firstn 32 (s64 ++ extra) = firstn 32 s64).
-  { rewrite firstn_app. replace (32 - length s64)%nat with 0%nat by lia. cbn [firstn]. apply app_nil_r. }
-  assert (F2 : firstn 32 (skipn 32 (s64 ++ extra)) = firstn 32 (skipn 32 s64)).
-  { rewrite skipn_app. replace (32 - length s64)%nat with 0%nat by lia.
-    change (skipn 0 extra) with extra. rewrite firstn_app.
-    assert (L : length (skipn 32 s64) = 32%nat) by (rewrite skipn_length; lia).
-    rewrite L. cbn [Nat.sub firstn]. apply app_nil_r. }
-  now rewrite F1, F2.
-Qed.
-
-Lemma schnorr_overlong hash256 sha256 hash_tapsighash hash_tapleaf xonly_ok C hm fuel t sp idx m pk s64 extra r :
+(* a signature of any other length (here: longer than 65 bytes): rejected *)
+Lemma schnorr_overlong_rejected so pk s64 extra r :
   length s64 = 64%nat -> (2 <= length extra)%nat ->
   taproot_sig_hash_type (s64 ++ extra) = None /\
-  op_checksig_schnorr
-    (tx_sigops hash256 sha256 hash_tapsighash hash_tapleaf xonly_ok (pecc_prims C hm sha256 fuel) t sp idx m)
-    (pk :: (s64 ++ extra) :: r) =
-  op_checksig_schnorr
-    (tx_sigops hash256 sha256 hash_tapsighash hash_tapleaf xonly_ok (pecc_prims C hm sha256 fuel) t sp idx m)
-    (pk :: s64 :: r).
+  op_checksig_schnorr so (pk :: (s64 ++ extra) :: r) = Err /\
+  forall en, op_checksigadd_schnorr so (pk :: en :: (s64 ++ extra) :: r) = Err.
 Proof.
   intros H He.
   assert (Hl : length (s64 ++ extra) = (64 + length extra)%nat) by (rewrite app_length, H; reflexivity).
   assert (N64 : (length (s64 ++ extra) =? 64)%nat = false) by (apply Nat.eqb_neq; lia).
   assert (N65 : (length (s64 ++ extra) =? 65)%nat = false) by (apply Nat.eqb_neq; lia).
-  split.
-  - unfold taproot_sig_hash_type. now rewrite N64, N65.
-  - unfold op_checksig_schnorr. cbn [so_xonly_ok so_schnorr tx_sigops].
-    destruct (negb (xonly_ok pk)); [reflexivity|].
-    destruct s64 as [|x s]; [discriminate|]. cbn [app].
-    change (x :: s ++ extra) with ((x :: s) ++ extra).
-    unfold schnorr_split. rewrite N65, H. cbn [Nat.eqb].
-    unfold tx_schnorr. cbn [pr_schnorr pecc_prims].
-    destruct (tx_digest _ _ _ _ _ _ _ _ _ _) as [d|]; cbn [bind]; [|reflexivity].
-    now rewrite (pecc_schnorr_ignores_tail C sha256 pk (x :: s) extra d H).
+  assert (T1 : taproot_sig_hash_type (s64 ++ extra) = None).
+  { unfold taproot_sig_hash_type. now rewrite N64, N65. }
+  split; [exact T1|].
+  apply op_schnorr_bad_form; [|exact T1]. destruct s64; [discriminate|discriminate].
+Qed.
+
+(* a 65-byte signature with a hash type BIP341 does not define (04, 80, ff, ...): rejected, so
+   Tx.sig_hash_bip341 is never asked for such a hash type by the op codes *)
+Lemma schnorr_undefined_hash_type_rejected so pk s64 ht r :
+  length s64 = 64%nat -> taproot_explicit_hash_type ht = false ->
+  taproot_sig_hash_type (s64 ++ [ht]) = None /\
+  op_checksig_schnorr so (pk :: (s64 ++ [ht]) :: r) = Err /\
+  forall en, op_checksigadd_schnorr so (pk :: en :: (s64 ++ [ht]) :: r) = Err.
+Proof.
+  intros H Hht.
+  assert (H65 : length (s64 ++ [ht]) = 65%nat) by (rewrite app_length, H; reflexivity).
+  assert (T1 : taproot_sig_hash_type (s64 ++ [ht]) = None).
+  { unfold taproot_sig_hash_type. rewrite H65. cbn [Nat.eqb]. now rewrite last_app_one, Hht. }
+  split; [exact T1|].
+  exact (op_schnorr_bad_form so pk (s64 ++ [ht]) r (app_one_not_nil _ _) T1).
 Qed.
